@@ -26,10 +26,9 @@
        find the corresponding definition, and the second resolution must reproduce Used /
        Name2Category).  With a filter the statement is false:
        [C16_trim_not_idempotent_with_filter_refuted].
-     - trim_resolves in terms of C05's [Resolve.resolve_program]: proved here is that no
-       reference of the output dangles ([C16_trim_resolves_partial],
-       [C16_base_service_survives_partial]); missing is completeness of the resolver model
-       (see there).  Oracle 5 evaluates the resolver model on every observed output.
+     - (trim_resolves is now proved for every configuration: [C16_trim_resolves_all]; its
+       hypotheses are all on the INPUT: resolvable, recorded resolution as C05's specification
+       prescribes for types ([occ_good]) and base services, struct-like lists by kind.)
      - the method filter: both halves are proved ([..._only_matching_partial],
        [..._complete_partial]) but they differ (plain match vs. markService's prefix rule,
        raw vs. Go names), which is the known finding; termination / absence of Go panics on
@@ -223,7 +222,7 @@ Print Assumptions C16_trim_resolves_partial.
    [resolve_program_good] proves of every result of the resolver); the parser's three
    struct-like lists hold what their names say.
    Hypotheses on the OUTPUT in THIS statement (decidable): its base services resolve
-   ([base_ok]: discharged without a method filter in C16_trim_resolves_no_filter_partial),
+   ([base_ok]: discharged in C16_trim_resolves_no_filter_partial and, with a method filter, in C16_trim_resolves_all),
    every identifier used as a value keeps exactly one explanation ([ident_ok]: discharged for
    every configuration in C16_trim_resolves_given_bases), and the include tree of the output is lower than its number of files
    (discharged for every configuration: C16_trimmed_includes_ok,
@@ -334,6 +333,27 @@ Theorem C16_trim_resolves_without_filter :
     Idl.ResolvableConst.resolvable q = true /\ exists r, Idl.Resolve.resolve_program q = Idl.Resolve.Ok r.
 Proof. exact Idl.TrimResolves.trim_resolves_without_filter. Qed.
 Print Assumptions C16_trim_resolves_without_filter.
+
+(* trim_resolves — EVERY configuration (with and without a method filter), no hypothesis on the
+   output.  With -m the missing piece was that a kept service whose `extends` is not cleared
+   has its base service and the include marked (Idl/TrimResolves.marked_services_good). *)
+Theorem C16_trim_resolves_all :
+  forall matches cp c p q fin, wf p ->
+    mark_ast matches cp c p (prog_size p) = Ok fin ->
+    reach cp c p false (prog_size p) fin (main_name p) [] = Ok q ->
+    Idl.ResolvableConst.resolvable p = true ->
+    (forall fn f, prog_file p fn = Some f -> forall t, In t (Idl.ResolveSpec.file_occs f) -> Idl.ResolveInv.occ_good p fn f t) ->
+    (forall fn f k s, prog_file p fn = Some f -> In s (sl_list k f) -> sl_category s = k) ->
+    (forall fn f s, prog_file p fn = Some f -> In s (f_services f) ->
+       match split_type (sv_extends s) with
+       | [pre; m] => exists i gn, Idl.ResolveSpec.spec_include p Idl.ResolveSpec.is_service_kind pre m
+                                    (Idl.ResolveSpec.file_incs f) 0 = Some (i, gn) /\
+                                  sv_ref s = Some (Ref m (Z.of_nat i))
+       | _ => sv_ref s = None
+       end) ->
+    Idl.ResolvableConst.resolvable q = true /\ exists r, Idl.Resolve.resolve_program q = Idl.Resolve.Ok r.
+Proof. exact Idl.TrimResolves.trim_resolves. Qed.
+Print Assumptions C16_trim_resolves_all.
 
 (* the part of it that needs no hypothesis on the output: types *)
 Theorem C16_trimmed_types_resolve :
